@@ -346,6 +346,15 @@ class ManifestContext:
         period.finish_setup(
             mode=opts.mode, timing=timing, base_url=base_url,
             use_base_urls=opts.useBaseUrls)
+        if db_period is not None and opts.segmentTimeline:
+            # the media of a Period is requested using times that count
+            # from the start of the Period
+            for adp in period.adaptationSets:
+                if not adp.representations:
+                    continue
+                rep = adp.representations[0]
+                adp.period_timeline = rep.generate_period_timeline(
+                    db_period.start_timecode(rep.timescale), period.duration)
         if is_https_request() and getattr(period, 'baseURL', None):
             # there is no Period BaseURL when useBaseUrls is off
             period.baseURL = period.baseURL.replace('http://', 'https://')
